@@ -5,8 +5,11 @@ package ristretto
 import (
 	"reflect"
 
+	"verif/shim/vsched"
 	sync "verif/shim/vsync"
 )
+
+func verifChanItems(p uintptr) []any { return vsched.ShadowAt(p) }
 
 // verifPoolItemsOf returns the items of the first sync.Pool found in the struct v (by value or
 // behind a pointer): the ring buffer's stripe pool.
